@@ -86,10 +86,11 @@ def run(bdir, tier, known_ids, deadline, only_utf8=False):
     orc = Oracle(plain)
     res = {'counters': {}, 'phases': [], 'violations': [], 'classes': [], 'samples': [], 'extra': {}}
     cls = {}
-    def viol(why, msg, data):
+    def viol(why, msg, data, nfiles=1):
+        if nfiles > 1: why += ':several-files'
         c = cls.setdefault(why, {'key': why + '|', 'count': 0, 'is_known': 0}); c['count'] += 1
         if c['count'] <= 2:
-            res['violations'].append({'sub': 'file', 'why': why, 'known': '', 'cfg': '', 'msg': msg[:190], 'text': repr(data[:120])[2:-1], 'hex': data.hex() if len(data) <= 400000 else ''})
+            res['violations'].append({'sub': 'files' if nfiles > 1 else 'file', 'why': why, 'known': '', 'cfg': '', 'msg': msg[:190], 'text': repr(data[:120])[2:-1], 'hex': data.hex() if len(data) <= 400000 else ''})
     L, longs = line_menu(thorough)
     terms = [b'\n', b'\r\n']
     files = [b'', b'\x00\n', b'a\x00b@c.com\n', b'\n', b'\r\n', b'\r', b'#only comment', b'#\n#\n']
@@ -167,46 +168,82 @@ def run(bdir, tier, known_ids, deadline, only_utf8=False):
     work = tempfile.mkdtemp(prefix='c20-', dir=os.path.join(bdir))
     env = dict(os.environ); env['ASAN_OPTIONS'] = 'detect_leaks=1:exitcode=77:abort_on_error=0'; env['UBSAN_OPTIONS'] = 'halt_on_error=1'; env['LC_ALL'] = 'C.UTF-8'
     nonempty = 0; done = [0]; incomplete = [False]
+    # several files on one command line (usage: eav FILE [FILE2 ...]): the getline buffer, the static output buffer and the decoder
+    # cursor live across files, so a file is also an event in a history.  All ordered pairs over a menu of 14 files, all triples over 5,
+    # and every pair with a path that cannot be opened in between (a warning on stderr, nothing on stdout, the other files still processed).
+    MISSING = None
+    if not only_utf8:
+        M = [b'', b'#c\n', b'ok@test.com\n', b'bad..x@test.com\n', b'ok@test.com', b'a\xff@b.com\r\n', b'\n', b' lead@test.com \n#c\nx@[1.2.3.4]\n',
+             longs[4] + b'\n', longs[-2] + b'\n' + b'ok@test.com\n', b'a\x01b@c.com\n' * 3, 'ж@почта.рф\n'.encode(), b'a' * 120 + b'@test.com\n', b'a\x00b@c.com\nok@test.com\n']
+        for a in M:
+            for b in M: files.append((a, b))
+        for a in M[:5]:
+            for b in M[:5]:
+                for c in M[:5]: files.append((a, b, c))
+        for a in M[:8]:
+            for b in M[:8]: files.append((a, MISSING, b)); 
+        files.append(tuple(M)); files.append(tuple(reversed(M)))
     def one(idx):
         if time.time() - t0 > deadline: incomplete[0] = True; return
-        data = files[idx]; path = os.path.join(work, 'f%d' % idx)
-        with open(path, 'wb') as f: f.write(data)
+        datas = files[idx] if isinstance(files[idx], tuple) else (files[idx],)
+        paths = []
+        for n, d in enumerate(datas):
+            path = os.path.join(work, 'f%d_%d' % (idx, n)); paths.append(path)
+            if d is not None:
+                with open(path, 'wb') as f: f.write(d)
+        data = b'\x1e'.join(b'\x1f' if d is None else d for d in datas) if len(datas) > 1 else datas[0]      # replay record: RS between files, US = path that does not exist
+        def cleanup():
+            for q in paths:
+                if os.path.exists(q): os.unlink(q)
         try:
-            p = subprocess.run([exe, path], env=env, stdout=subprocess.PIPE, stderr=subprocess.PIPE, timeout=60)
+            p = subprocess.run([exe] + paths, env=env, stdout=subprocess.PIPE, stderr=subprocess.PIPE, timeout=60)
         except subprocess.TimeoutExpired:
-            viol('cli:timeout', 'no termination within 60 s', data); os.unlink(path); return
-        os.unlink(path)
+            viol('cli:timeout', 'no termination within 60 s', data, len(datas)); cleanup(); return
+        cleanup()
         done[0] += 1
         if p.returncode != 0:
             err = p.stderr.decode(errors='replace')
             kind = 'assertion-failure' if 'Assertion' in err else 'sanitizer:' + (err.split('ERROR: ')[1].split(' on ')[0][:50] if 'ERROR: ' in err else 'exit-%d' % p.returncode)
-            viol('cli:' + kind, 'exit status %d: %s' % (p.returncode, ' '.join(err.split())[:150]), data); return
-        exp = expected(data, orc)
-        outl = p.stdout.split(b'\n')
+            viol('cli:' + kind, 'exit status %d: %s' % (p.returncode, ' '.join(err.split())[:150]), data, len(datas)); return
+        present = [d for d in datas if d is not None]
+        orders = [list(reversed(present))] + ([present] if len(present) > 1 else [])      # the tool walks argv from the last file to the first; either order is accepted
+        problems = []
+        for order in orders:
+            exp = []
+            for d in order: exp += expected(d, orc)
+            pr = judge(exp, p.stdout)
+            if pr is None: return
+            problems.append(pr)
+        viol(problems[0][0], problems[0][1], data, len(datas))
+    def judge(exp, stdout):
+        outl = stdout.split(b'\n')
         if outl and outl[-1] == b'': outl = outl[:-1]
         i = 0
         for j, e in enumerate(exp):
-            if i >= len(outl): viol('cli:missing-verdict', 'non-comment line %d has no verdict (stdout has %d lines)' % (j + 1, len(outl)), data); return
+            if i >= len(outl): return ('cli:missing-verdict', 'non-comment line %d has no verdict (stdout has %d lines)' % (j + 1, len(outl)))
             head = outl[i][:6]
-            if head not in (b'PASS: ', b'FAIL: '): viol('cli:malformed-output', 'stdout line %d does not start with a verdict: %r' % (i + 1, outl[i][:60]), data); return
+            if head not in (b'PASS: ', b'FAIL: '): return ('cli:malformed-output', 'stdout line %d does not start with a verdict: %r' % (i + 1, outl[i][:60]))
             got = head[:4].decode()
             if e is not None:
-                if got != e[0]: viol('cli:verdict-differs-from-library', 'line %d: tool says %s, eav_is_email (default settings) says %s for %r' % (j + 1, got, e[0], e[1]), data); return
-                if e[1] is not None and outl[i][6:] != e[1]: viol('cli:clean-line-not-echoed-verbatim', 'line %d: echoed %r, expected %r' % (j + 1, outl[i][6:66], e[1][:60]), data); return
+                if got != e[0]: return ('cli:verdict-differs-from-library', 'line %d: tool says %s, eav_is_email (default settings) says %s for %r' % (j + 1, got, e[0], e[1]))
+                if e[1] is not None and outl[i][6:] != e[1]: return ('cli:clean-line-not-echoed-verbatim', 'line %d: echoed %r, expected %r' % (j + 1, outl[i][6:66], e[1][:60]))
             i += 1
             if got == 'FAIL':
-                if i >= len(outl) or not outl[i].startswith(b'      '): viol('cli:fail-without-message', 'line %d: FAIL not followed by the error message' % (j + 1), data); return
-                if e is not None and e[2] is not None and outl[i][6:] != e[2]: viol('cli:message-differs-from-library', 'line %d: message %r, library says %r' % (j + 1, outl[i][6:], e[2]), data); return
+                if i >= len(outl) or not outl[i].startswith(b'      '): return ('cli:fail-without-message', 'line %d: FAIL not followed by the error message' % (j + 1))
+                if e is not None and e[2] is not None and outl[i][6:] != e[2]: return ('cli:message-differs-from-library', 'line %d: message %r, library says %r' % (j + 1, outl[i][6:], e[2]))
                 i += 1
-        if i != len(outl): viol('cli:extra-output', '%d output lines beyond the %d expected verdicts' % (len(outl) - i, len(exp)), data)
+        if i != len(outl): return ('cli:extra-output', '%d output lines beyond the %d expected verdicts' % (len(outl) - i, len(exp)))
+        return None
     with ThreadPoolExecutor(16) as ex:
         list(ex.map(one, range(len(files))))
     shutil.rmtree(work, ignore_errors=True)
     res['classes'] = list(cls.values())
-    nt = sum(1 for f in files if f.count(b'\n') >= 1 and len(f) > 2)
+    nt = sum(1 for f in files if isinstance(f, tuple) or (f.count(b'\n') >= 1 and len(f) > 2))
     res['counters'] = {'evaluations': done[0], 'distinct_nontrivial': nt, 'files_run_through_the_tool': done[0], 'library_decisions_by_oracle': len(orc.cache)}
-    res['samples'] = [{'sub': 'file', 'cfg': '', 'text': repr(files[i][:80])[2:-1], 'msg': 'file run through bin/eav'} for i in range(8, min(len(files), 4000), max(1, len(files) // 8))][:8]
+    res['samples'] = [{'sub': 'file', 'cfg': '', 'text': repr(files[i][:80])[2:-1], 'msg': 'file run through bin/eav'} for i in range(8, min(len(files), 4000), max(1, len(files) // 8)) if not isinstance(files[i], tuple)][:8]
     res['phases'].append({'name': 'all sequences of <=%d lines over %d shapes x LF/CRLF x final newline; long lines 1023..8192' % (k, len(L)), 'shards': len(files), 'done': done[0], 'complete': not incomplete[0], 'evaluations': done[0], 'wall_s': round(time.time() - t0, 2)})
+    nmulti = sum(1 for f in files if isinstance(f, tuple))
+    if nmulti: res['phases'].append({'name': 'several files on one command line: ordered pairs over 14 files, triples over 5, pairs around a path that cannot be opened, all 14 in both orders', 'shards': nmulti, 'done': nmulti, 'complete': not incomplete[0], 'evaluations': nmulti, 'wall_s': 0})
     if incomplete[0]: res['deadline_hit'] = 1
     return res
 
@@ -215,9 +252,13 @@ def replay(bdir, path):
     c = checks.read_case(path)
     data = bytes.fromhex(c.get('hex', ''))
     exe, plain = build(bdir)
-    f = os.path.join(bdir, 'replay-input'); open(f, 'wb').write(data)
+    fs = []
+    for n, d in enumerate(data.split(b'\x1e') if c.get('sub') == 'files' else [data]):
+        f = os.path.join(bdir, 'replay-input%d' % n); fs.append(f)
+        if d != b'\x1f': open(f, 'wb').write(d)
+        elif os.path.exists(f): os.unlink(f)
     env = dict(os.environ); env['ASAN_OPTIONS'] = 'detect_leaks=1:exitcode=77'
-    p = subprocess.run([exe, f], env=env)
+    p = subprocess.run([exe] + fs, env=env)
     print('exit status', p.returncode)
     return 1 if p.returncode != 0 else 0
 
